@@ -295,6 +295,8 @@ var entryPoints = []entryPoint{
 	{"Add-3", func(v any) slot { return slot{l: at.NewList("a").Add(1, v, 2), idx: 2} }},
 	{"Insert", func(v any) slot { return slot{l: at.NewList(0, 1).Insert(1, v), idx: 1} }},
 	{"Insert-end", func(v any) slot { return slot{l: at.NewList(0, 1).Insert(2, v), idx: 2} }},
+	{"Insert-into-full-list", func(v any) slot { return slot{l: at.NewListFrom([]any{0, 1, 2}).Insert(1, v), idx: 1} }},
+	{"Insert-front-of-full-list", func(v any) slot { return slot{l: at.NewList(0, 1).Concat(at.NewList(2)).Insert(0, v), idx: 0} }},
 	{"Replace", func(v any) slot { return slot{l: at.NewList(0).Replace(0, v)} }},
 	{"list.SetTF-leaf", func(v any) slot { return slot{l: at.NewList().SetTF("#2", v), idx: 2} }},
 	{"list.SetTF-replace", func(v any) slot { return slot{l: at.NewList(0, 1).SetTF("#1", v), idx: 1} }},
@@ -467,19 +469,57 @@ func c12Store(c *fw.Ctx, ep entryPoint, v any) {
 			}
 		}
 		// a converted container is a fresh one of the caller's: modifying it must not influence any later conversion
+		// ... and it is a container like any other: it (and every container nested in it, empty ones too) takes writes
 		if ident == nil && kind2container(kind) {
-			drive.Protect(func() {
-				switch x := got.(type) {
-				case at.List:
-					x.Add("poison")
-				case at.Object:
-					x.Set("poison", true)
+			var bad string
+			var visit func(v any, path string)
+			visit = func(v any, path string) {
+				if bad != "" {
+					return
 				}
-			})
+				switch x := v.(type) {
+				case at.List:
+					for i := 0; i < x.Count(); i++ {
+						visit(x.Get(i), fmt.Sprintf("%s#%d", path, i))
+					}
+					n := x.Count()
+					if n > 200 {
+						return
+					}
+					if p, msg := drive.Protect(func() { x.Add("poison").Insert(0, "front") }); p {
+						bad = fmt.Sprintf("Add / Insert on the converted list at %q panics: %s", path, msg)
+					} else if x.Count() != n+2 || x.Get(0) != "front" || x.Get(n+1) != "poison" {
+						bad = fmt.Sprintf("Add / Insert on the converted list at %q did not take effect: %s", path, stringCanon(x))
+					}
+				case at.Object:
+					for _, k := range x.Keys().StringSlice() {
+						visit(x.Get(k), path+"."+k)
+					}
+					n := x.Count()
+					poisonSeq++
+					if n > 200 {
+						return
+					}
+					k1, k2 := fmt.Sprintf("poison%d", poisonSeq), fmt.Sprintf("poisonTF%d", poisonSeq)
+					// flat writes only (containers that already existed pass through here many times)
+					if p, msg := drive.Protect(func() { x.Set(k1, true).SetTF("."+k2, 1) }); p {
+						bad = fmt.Sprintf("Set / SetTF on the converted object at %q panics: %s", path, msg)
+					} else if x.Count() != n+2 || x.Get(k1) != true {
+						bad = fmt.Sprintf("Set / SetTF on the converted object at %q did not take effect: %s", path, stringCanon(x))
+					}
+				}
+			}
+			visit(got, "")
 			c.Count("converted_containers_modified_afterwards")
+			if bad != "" {
+				c.Violate("converted-container-unusable", in(), "a fresh container that can be modified like any other", bad)
+			}
 		}
 	})
 }
+
+// poisonSeq makes the keys written into converted containers unique (existing containers pass through several entry points)
+var poisonSeq int
 
 func kind2container(k spec.Kind) bool { return k == spec.List || k == spec.Obj }
 
